@@ -8,16 +8,18 @@ from .codec import Some, plain
 from .core import Plugin
 
 BASES = ["http://x.org/", "http://x.org/a_", "http://x.org/a", "https://y.org/ns#", "https://y.org/ns", "urn:z:", "http://x.org/a/b/",
-         "é://ü/", "https://github.com/o/r/issues/", "https://github.com/o/r/pull/", "https://github.com/issues_list/", "", "x", "http://x.org/A_"]
+         "é://ü/", "https://github.com/o/r/issues/", "https://github.com/o/r/pull/", "https://github.com/issues_list/", "", "x", "http://x.org/A_",
+         "http://x.org/e?id=", "http://x.org/gene_id", "urn::z::", "http://x.org/q__"]
 LUIDS = ["1", "2", "3", "0001", "abc", "Z9", "é", "٣", "ⅷ", "a_b", "a-b", "", "a/b", "x#y", "1_2", "²", "𝔘", "12345"]
-DELIMS = [None, None, None, ["#", "/", "_"], ["/"], ["_", "/"], ["#"], ["/", "#", "_", ":"], [":"], ["__", "/"], ["/b/", "/"], []]
+DELIMS = [None, None, None, ["#", "/", "_"], ["/"], ["_", "/"], ["#"], ["/", "#", "_", ":"], [":"], ["__", "/"], ["/b/", "/"], [],
+          ["?id=", "/"], ["_id", "/"], ["::"], ["=", "?id="], ["__"], ["_id"], ["::", ":"]]
 
 
 class C19(Plugin):
     pid = "C19"
     entry = 19
     prop = 19
-    counts = {"quick": 2500, "thorough": 80000}
+    counts = {"quick": 2500, "thorough": 250000}
     rule = ("case = (optional pre-existing converter, delimiter list, cutoff, metaprefix, list of URIs, a permuted copy with repetitions, the "
             "alphanumeric table of the characters used); URIs = base ++ optional delimiter ++ identifier over nested base families (x/, x/a_, x#), "
             "alphanumeric / non-alphanumeric / empty / Unicode-digit identifiers, a dedicated stream of GitHub issue URIs (known finding K1). "
